@@ -94,6 +94,19 @@ Theorem xmr_encode_inj : forall b1 b2 s, bytes_ok b1 -> bytes_ok b2 ->
 Proof. exact XmrConstsOk.xmr_encode_inj. Qed.
 Print Assumptions xmr_encode_inj.
 
+(* the text length depends on the data length only: 11 symbols per full 8-byte block plus the table row of the
+   partial block; in particular standard and integrated Monero addresses have 95 and 106 symbols *)
+Theorem xmr_encode_length : forall b s, bytes_ok b -> Codecs.xmr_encode b = Ok s ->
+  exists e, nth_error xmr_block_enc_lens (length b mod xmr_block_dec_max) = Some e /\
+    length s = (length b / xmr_block_dec_max * xmr_block_enc_max + e)%nat.
+Proof. exact XmrConstsOk.xmr_encode_length. Qed.
+Print Assumptions xmr_encode_length.
+
+Theorem xmr_address_text_lengths : forall b s, bytes_ok b -> Codecs.xmr_encode b = Ok s ->
+  (length b = 69%nat -> length s = 95%nat) /\ (length b = 77%nat -> length s = 106%nat).
+Proof. exact XmrConstsOk.xmr_address_text_lengths. Qed.
+Print Assumptions xmr_address_text_lengths.
+
 (* block lemma, for EVERY block-width string (not only encoder output): the Base58 decoding has at
    least d bytes, i.e. the start of __UnPad's slice is never negative *)
 Theorem xmr_block_dec_length : forall s d e dec, nth_error xmr_block_enc_lens d = Some e -> length s = e ->
